@@ -267,3 +267,31 @@ package har
 //@   ensures[unsupported-encoding-is-an-error] result == nil ==> c.Encoding == "base64" || c.Encoding == ""
 // (Round trip of binary content follows from the two contracts above given unb64(b64(t)) == t and a faithful
 // encoding/json on the intermediate struct; that composition is not stated as an obligation.)
+
+// C16: body capture follows the configured content-type options: the message's Content-Type (lower-cased) has one of
+// the configured entries (lower-cased) as a PREFIX: opt-in options capture exactly then, opt-out options exactly not.
+//@ pred ctMatch(h http.Header, cts []string) = exists i int :: 0 <= i && i < len(cts) && strings.HasPrefix(strings.ToLower(firstHdr(h, "Content-Type")), strings.ToLower(cts[i]))
+//@ func PostDataLoggingForContentTypes$1$1
+//@   serves C16
+//@   safe index
+//@   requires req != nil
+//@   ensures[captured-exactly-when-the-content-type-has-a-configured-prefix] result == ctMatch(req.Header, cts)
+//@   loop 0 invariant forall i int :: 0 <= i && i <= rangeindex && i < len(cts) ==> !strings.HasPrefix(strings.ToLower(firstHdr(req.Header, "Content-Type")), strings.ToLower(cts[i]))
+//@ func SkipPostDataLoggingForContentTypes$1$1
+//@   serves C16
+//@   safe index
+//@   requires req != nil
+//@   ensures[skipped-exactly-when-the-content-type-has-a-configured-prefix] result == !ctMatch(req.Header, cts)
+//@   loop 0 invariant forall i int :: 0 <= i && i <= rangeindex && i < len(cts) ==> !strings.HasPrefix(strings.ToLower(firstHdr(req.Header, "Content-Type")), strings.ToLower(cts[i]))
+//@ func BodyLoggingForContentTypes$1$1
+//@   serves C16
+//@   safe index
+//@   requires res != nil
+//@   ensures[captured-exactly-when-the-content-type-has-a-configured-prefix] result == ctMatch(res.Header, cts)
+//@   loop 0 invariant forall i int :: 0 <= i && i <= rangeindex && i < len(cts) ==> !strings.HasPrefix(strings.ToLower(firstHdr(res.Header, "Content-Type")), strings.ToLower(cts[i]))
+//@ func SkipBodyLoggingForContentTypes$1$1
+//@   serves C16
+//@   safe index
+//@   requires res != nil
+//@   ensures[skipped-exactly-when-the-content-type-has-a-configured-prefix] result == !ctMatch(res.Header, cts)
+//@   loop 0 invariant forall i int :: 0 <= i && i <= rangeindex && i < len(cts) ==> !strings.HasPrefix(strings.ToLower(firstHdr(res.Header, "Content-Type")), strings.ToLower(cts[i]))
